@@ -725,6 +725,17 @@ def discharge_by_guard(p, s):
                 return True
             if rg[3] and all(found_in_same(v) for n_, v in rg[3]):
                 return "the bounds are offsets str::find returned for the sliced string itself (or its length): in range and on a char boundary"
+    if decl == "core::str::<impl str>::split_at" and len(s.ops) > 1:
+        a = deep_strip(s.ops[1])
+        alts = a[1] if a[0] == "phi" else (a,)
+        okf = bool(alts)
+        for x in alts:
+            x = deep_strip(x)
+            c = deep_strip(deep_strip(x[1])[1]) if x[0] == "field" and x[2] == "0" and deep_strip(x[1])[0] == "as" and deep_strip(x[1])[2] == "Some" else None
+            if not (c is not None and c[0] == "call" and c[1] in ("core::str::<impl str>::find", "core::str::<impl str>::rfind") and _sig(c[2][0]) == _sig(s.ops[0])):
+                okf = False
+        if okf:
+            return "split at an offset str::find returned for the same string: in range and on a char boundary"
     if decl in ("alloc::vec::Vec::<T, A>::drain", "alloc::string::String::drain") and len(s.ops) > 1:
         rg = strip(s.ops[1])
         if rg[0] == "agg" and rg[1].endswith("RangeFull"):
